@@ -17,7 +17,8 @@ CONSTANTS Templates, Export
 
 Space(t) == CASE t = "branch" -> Branch [] t = "loop" -> LoopP [] t = "nested" -> Nested
               [] t = "straight" -> Straight [] t = "call" -> CallP [] t = "rec" -> RecP
-              [] t = "closure" -> Closure [] t = "closure2" -> Closure2 [] t = "loopbranch" -> LoopBranch [] t = "rangebranch" -> RangeBranch [] t = "strbranch" -> StrBranch
+              [] t = "closure" -> Closure [] t = "closure2" -> Closure2 [] t = "hoistarms" -> HoistArms [] t = "bigloop" -> BigLoop
+              [] t = "selectone" -> SelectOne [] t = "ivwidth" -> IVWidth [] t = "loopbranch" -> LoopBranch [] t = "rangebranch" -> RangeBranch [] t = "strbranch" -> StrBranch
               [] t = "sharedcmp" -> SharedCmp [] t = "fltbranch" -> FltBranch [] t = "extract" -> Extract [] t = "ubig" -> UBig [] t = "consttype" -> ConstType [] t = "sibloops" -> SibLoops [] t = "dectree" -> DecTree [] t = "labeled" -> Labeled [] t = "orand" -> OrAnd [] t = "switch2" -> Switch2
               [] OTHER -> BigConst
 Programs == UNION {Space(t) : t \in Templates}
@@ -33,7 +34,7 @@ RefPres == {pr \in Pres : ~pr.badswap /\ pr # Plain}
 \* (< / <=) with the branches exchanged, in either direction; == / != are not part of it
 \* commuting is about ALREADY-EVALUATED operands: where both operands are calls, exchanging them in the
 \* source reorders the calls, which is not a cosmetic change
-Applicable(p, pr) == /\ pr.flip => (p.tpl \in {"branch", "loopbranch", "rangebranch", "strbranch"} /\ p.cmp \in {"<", "<=", ">", ">="})
+Applicable(p, pr) == /\ pr.flip => (p.tpl \in {"branch", "loopbranch", "rangebranch", "strbranch", "hoistarms"} /\ p.cmp \in {"<", "<=", ">", ">="})
                      /\ pr.commute => p.tpl \notin {"call", "closure", "closure2"}
 
 RefactorPreserves ==
